@@ -294,6 +294,13 @@ func (s *stub) Discover(ctx context.Context, in *pb.ConnectionData, _ ...grpc.Ca
 	if err != nil {
 		return nil, err
 	}
+	if m := s.net.Mutate; m != nil && out != nil {
+		if alt := m(s.to.Idx, callerNode(s.net.w), "DiscoverReply", out); alt != nil {
+			if cn, ok := alt.(*pb.ConnectedNodes); ok {
+				out = cn
+			}
+		}
+	}
 	return out, nil
 }
 
